@@ -22,6 +22,8 @@ static double gen_angle(ByteSource& s, const char** cls = nullptr) {
   static const char* names[] = {"0", "pi/2", "pi", "negative", ">2pi", "1e3", "random"};
   unsigned k = s.choose(7);
   if (cls) *cls = names[k];
+  // (tail byte) angles far below 1e-8, where cos(theta) rounds to 1 but the rotation is still a first-order change of the vector
+  if (s.tail_choose(8) == 1) { if (cls) *cls = "tiny"; return std::ldexp(1.0 + s.tail_u8() / 256.0, -(int)(20 + s.tail_choose(31))) * (s.tail_choose(2) ? -1 : 1); }
   switch (k) {
     case 0: return 0.0;
     case 1: return M_PI / 2;
